@@ -421,8 +421,10 @@ class Run:
 
     def property_failure(self, signature: str, what: str, case):
         """The property fails on the implementation for `case`."""
-        if signature in self.known:
-            self.known_hits.setdefault(signature, {"what": what, "case": case})
+        parts = signature.split("+")
+        if all(p in self.known for p in parts):
+            for p in parts:
+                self.known_hits.setdefault(p, {"what": what, "case": case})
         else:
             self.violations.append({"signature": signature, "what": what, "case": case})
 
